@@ -24,6 +24,7 @@ func main() {
 	vdir := flag.String("verif", "/verif", "verif root (evidence, known findings)")
 	list := flag.Bool("list", false, "list properties with checks")
 	discover := flag.String("discover", "", "print guard signatures of functions whose key matches this regexp (tool for building tables)")
+	effects := flag.String("effects", "", "print mod/ref/hazard summaries of functions whose key matches this regexp (debug tool)")
 	flag.Parse()
 	// measured on this image: kernel-side page-fault contention makes 16 Ps slower than 8.
 	if os.Getenv("GOMAXPROCS") == "" {
@@ -34,6 +35,10 @@ func main() {
 	}
 	repoDir = *repo
 	verifDir = *vdir
+	if *effects != "" {
+		runEffects(*effects)
+		return
+	}
 	if *discover != "" {
 		runDiscover(*discover)
 		return
